@@ -47,7 +47,36 @@ import "berty.tech/go-ipfs-log/iface"
 //@   ensures forall k string :: has(om(result).values, k) ==> exists i int :: 0 <= i && i < len(heads) && om(result).values[k] == old(heads[i])
 //@   lockensures held[om(result).lock] == 0
 
+// ---- C03 (facet lin): the traversal visits every entry reachable from its roots ----
+//@ define inStack(stack []iface.IPFSLogEntry, n string) = exists i int :: 0 <= i && i < len(stack) && ehash(stack[i]) == n
+//@ define linksAgree(res iface.IPFSLogOrderedEntries, E iface.IPFSLogOrderedEntries) = forall k string :: has(omv(res), k) && has(omv(E), k) ==> sameCids(omv(res)[k].Next, omv(E)[k].Next)
+//@ define visitsRoots(H iface.IPFSLogOrderedEntries, res iface.IPFSLogOrderedEntries) = forall k string :: has(omv(H), k) ==> has(omv(res), k)
+//@ define followsLinks(res iface.IPFSLogOrderedEntries, E iface.IPFSLogOrderedEntries) = forall k string, j int :: has(omv(res), k) && 0 <= j && j < len(omv(res)[k].Next) ==> !has(omv(E), str(omv(res)[k].Next[j])) || has(omv(res), str(omv(res)[k].Next[j]))
+// Completeness of a traversal that visits its roots and follows every link into the entry index, by induction from the
+// roots downward: an entry is a root, or is named by a higher-ranked entry, which was visited (induction), so its links
+// were followed.
+//@ func verifLemmaTraversalComplete
+//@   lemma
+//@   induction x by rankMax() - rank(x)
+//@   requires validEntries(E) && validEntries(res) && isOM(H)
+//@   requires visitsRoots(H, res) && followsLinks(res, E) && linksAgree(res, E) && connectedUp(E, H)
+//@   requires has(omv(E), x)
+//@   ensures [every-entry-hanging-from-the-roots-is-visited] has(omv(res), x)
+func verifLemmaTraversalComplete(E iface.IPFSLogOrderedEntries, H iface.IPFSLogOrderedEntries, res iface.IPFSLogOrderedEntries, x string) {
+}
+
+// causalOrd(fn, l): the ordering puts an entry above each of its predecessors (for clock-based orderings this is the
+// Lamport condition that Append establishes: the new entry's time exceeds the time of every head it names)
+//@ define causalOrd(fn fn, l *IPFSLog) = forall k string, j int :: has(ent(l), k) && 0 <= j && j < len(ent(l)[k].Next) ==> ordH(fn, k, str(ent(l)[k].Next[j])) > 0
+//@ define descending(fn fn, s []iface.IPFSLogEntry) = forall i int, j int :: 0 <= i && i < j && j < len(s) ==> ordH(fn, ehash(s[i]), ehash(s[j])) >= 0
 //@ func (*IPFSLog).traverse
+//@ @lin requires rootEntries != nil ==> preorder(l.SortFn) && causalOrd(l.SortFn, l) && linksAgree(rootEntries, l.Entries) && (forall k string :: has(omv(rootEntries), k) ==> has(ent(l), k))
+//@ @lin ensures [traversal-order-is-descending] rootEntries != nil ==> forall i int, j int :: 0 <= i && i < j && j < len(om(result0).keys) ==> ordH(l.SortFn, om(result0).keys[i], om(result0).keys[j]) >= 0
+//@ @lin ensures [traverse-visits-its-roots] rootEntries != nil && amount < 0 && (forall k string :: has(omv(rootEntries), k) || has(ent(l), k) ==> k != endHash) ==> visitsRoots(rootEntries, result0)
+//@ @lin ensures [traverse-follows-every-link-into-the-log] rootEntries != nil && amount < 0 && (forall k string :: has(omv(rootEntries), k) || has(ent(l), k) ==> k != endHash) ==> followsLinks(result0, l.Entries)
+//@ @lin ensures [traverse-returns-root-or-log-objects] rootEntries != nil ==> forall k string :: has(omv(result0), k) ==> (has(omv(rootEntries), k) && omv(result0)[k] == omv(rootEntries)[k]) || (has(ent(l), k) && omv(result0)[k] == ent(l)[k])
+//@ @lin uselemma verifLemmaTraversalComplete(l.Entries, rootEntries, result0, _)
+//@ @lin ensures [traverse-is-complete] rootEntries != nil && amount < 0 && (forall k string :: has(omv(rootEntries), k) || has(ent(l), k) ==> k != endHash) && linksAgree(rootEntries, l.Entries) && connectedUp(l.Entries, rootEntries) ==> forall x string :: has(ent(l), x) ==> has(omv(result0), x)
 //@   requires l != nil && validEntries(l.Entries) && l.SortFn != nil
 //@   requires rootEntries == nil || validEntries(rootEntries)
 //@   lockrequires onlyLogLockHeld(l)
@@ -62,6 +91,13 @@ import "berty.tech/go-ipfs-log/iface"
 //@     invariant amount >= 0 ==> 0 <= count && len(om(result).keys) <= count && count <= amount
 //@     invariant forall k string :: has(om(result).values, k) ==> inMap(rootEntries, om(result).values[k]) || inMap(l.Entries, om(result).values[k])
 //@     invariant forall i int :: 0 <= i && i < len(stack) ==> inMap(rootEntries, stack[i]) || inMap(l.Entries, stack[i])
+//@ @lin invariant [pending-entries-are-sorted] descending(l.SortFn, stack)
+//@ @lin invariant [visited-entries-dominate-pending-ones] forall k string, i int :: has(omv(result), k) && 0 <= i && i < len(stack) ==> ordH(l.SortFn, k, ehash(stack[i])) >= 0
+//@ @lin invariant [visit-order-is-descending] forall i int, j int :: 0 <= i && i < j && j < len(om(result).keys) ==> ordH(l.SortFn, om(result).keys[i], om(result).keys[j]) >= 0
+//@ @lin invariant [roots-are-visited-or-pending] forall k string :: has(omv(rootEntries), k) ==> has(omv(result), k) || inStack(stack, k)
+//@ @lin invariant [traversed-hashes-are-visited-or-pending] forall n string :: has(traversed, n) ==> has(omv(result), n) || inStack(stack, n)
+//@ @lin invariant [links-of-visited-entries-are-traversed-or-foreign] forall k string, j int :: has(omv(result), k) && 0 <= j && j < len(omv(result)[k].Next) ==> !has(ent(l), str(omv(result)[k].Next[j])) || has(traversed, str(omv(result)[k].Next[j]))
+//@ @lin invariant [visited-objects-are-root-or-log-objects] forall k string :: has(omv(result), k) ==> (has(omv(rootEntries), k) && omv(result)[k] == omv(rootEntries)[k]) || (has(ent(l), k) && omv(result)[k] == ent(l)[k])
 //@     lockinvariant held[om(result).lock] == 0
 //@     loopfresh
 //@   loop 1
@@ -71,10 +107,28 @@ import "berty.tech/go-ipfs-log/iface"
 //@     invariant forall k string :: has(om(result).values, k) ==> inMap(rootEntries, om(result).values[k]) || inMap(l.Entries, om(result).values[k])
 //@     invariant forall i int :: 0 <= i && i < len(stack) ==> inMap(rootEntries, stack[i]) || inMap(l.Entries, stack[i])
 //@     invariant validEntry(e)
+//@ @lin invariant has(omv(result), ehash(e)) && omv(result)[ehash(e)] == e && has(traversed, ehash(e)) && ehash(e) != endHash
+//@ @lin invariant [pending-entries-stay-sorted-until-one-is-added] !modified ==> descending(l.SortFn, stack)
+//@ @lin invariant [visited-entries-dominate-pending-ones] forall k string, i int :: has(omv(result), k) && 0 <= i && i < len(stack) ==> ordH(l.SortFn, k, ehash(stack[i])) >= 0
+//@ @lin invariant [visited-entries-dominate-the-current-one] forall k string :: has(omv(result), k) ==> ordH(l.SortFn, k, ehash(e)) >= 0
+//@ @lin invariant [visit-order-is-descending] forall i int, j int :: 0 <= i && i < j && j < len(om(result).keys) ==> ordH(l.SortFn, om(result).keys[i], om(result).keys[j]) >= 0
+//@ @lin invariant [roots-are-visited-or-pending] forall k string :: has(omv(rootEntries), k) ==> has(omv(result), k) || inStack(stack, k)
+//@ @lin invariant [traversed-hashes-are-visited-or-pending] forall n string :: has(traversed, n) ==> has(omv(result), n) || inStack(stack, n)
+//@ @lin invariant [links-of-visited-entries-are-traversed-or-foreign] forall k string, j int :: has(omv(result), k) && k != ehash(e) && 0 <= j && j < len(omv(result)[k].Next) ==> !has(ent(l), str(omv(result)[k].Next[j])) || has(traversed, str(omv(result)[k].Next[j]))
+//@ @lin invariant [seen-links-of-the-current-entry-are-traversed-or-foreign] forall j int :: 0 <= j && j < $k ==> !has(ent(l), str(e.Next[j])) || has(traversed, str(e.Next[j]))
+//@ @lin invariant [visited-objects-are-root-or-log-objects] forall k string :: has(omv(result), k) ==> (has(omv(rootEntries), k) && omv(result)[k] == omv(rootEntries)[k]) || (has(ent(l), k) && omv(result)[k] == ent(l)[k])
 //@     lockinvariant held[om(result).lock] == 0
 //@     loopfresh
 
 //@ func (*IPFSLog).values
+//@ @lin requires wfLog(l) && isOM(l.Next) && l.heads != nil
+//@ @lin requires preorder(l.SortFn) && causalOrd(l.SortFn, l)
+//@ @lin ensures [values-are-sorted-by-the-configured-ordering] forall i int, j int :: 0 <= i && i < j && j < len(om(result).keys) ==> ordH(l.SortFn, om(result).keys[i], om(result).keys[j]) <= 0
+//@ @lin ensures [every-entry-comes-after-its-predecessors] forall i int, j int, q int :: 0 <= i && i < len(om(result).keys) && 0 <= j && j < len(om(result).keys) && 0 <= q && q < len(omv(result)[om(result).keys[i]].Next) && str(omv(result)[om(result).keys[i]].Next[q]) == om(result).keys[j] ==> j < i
+//@ @lin uselemma verifLemmaSourceConnected(l, l.Entries)
+//@ @lin ensures [values-hold-every-entry-of-the-log] (forall k string :: has(ent(l), k) ==> k != "") ==> forall x string :: has(ent(l), x) ==> has(omv(result), x)
+//@ @lin ensures [values-hold-only-entries-of-the-log] forall k string :: has(omv(result), k) ==> has(ent(l), k)
+//@ @lin ensures [values-hold-each-entry-once] forall i int, j int :: 0 <= i && i < j && j < len(om(result).keys) ==> om(result).keys[i] != om(result).keys[j]
 //@   requires l != nil && l.SortFn != nil
 //@   requires validEntries(l.Entries)
 //@   requires l.heads == nil || validEntries(l.heads)
@@ -244,6 +298,12 @@ import "berty.tech/go-ipfs-log/iface"
 //@   acquires l.lock
 //@   lockrequires noLocksHeld()
 //@   ensures [values-returns-a-copy] validEntries(result) && fresh(result) && fresh(om(result).values)
+//@ @lin requires wfLog(l) && preorder(l.SortFn) && causalOrd(l.SortFn, l)
+//@ @lin ensures [values-are-sorted-by-the-configured-ordering] forall i int, j int :: 0 <= i && i < j && j < len(om(result).keys) ==> ordH(l.SortFn, om(result).keys[i], om(result).keys[j]) <= 0
+//@ @lin ensures [every-entry-comes-after-its-predecessors] forall i int, j int, q int :: 0 <= i && i < len(om(result).keys) && 0 <= j && j < len(om(result).keys) && 0 <= q && q < len(omv(result)[om(result).keys[i]].Next) && str(omv(result)[om(result).keys[i]].Next[q]) == om(result).keys[j] ==> j < i
+//@ @lin ensures [values-hold-every-entry-of-the-log] (forall k string :: has(ent(l), k) ==> k != "") ==> forall x string :: has(ent(l), x) ==> has(omv(result), x)
+//@ @lin ensures [values-hold-only-entries-of-the-log] forall k string :: has(omv(result), k) ==> has(ent(l), k)
+//@ @lin ensures [values-hold-each-entry-once] forall i int, j int :: 0 <= i && i < j && j < len(om(result).keys) ==> om(result).keys[i] != om(result).keys[j]
 
 //@ func (*IPFSLog).ToSnapshot
 //@   requires logInv(l)
